@@ -61,7 +61,7 @@ var typs = []string{"TA", "TB"}
 func genWOps(t *rapid.T, label string, lo, hi int) []WOp {
 	return rapid.SliceOfN(rapid.Custom(func(t *rapid.T) WOp {
 		return WOp{
-			K:   rapid.SampledFrom([]string{"create", "create", "update", "update", "update", "destroy"}).Draw(t, "k"),
+			K:   rapid.SampledFrom([]string{"create", "create", "update", "update", "update", "destroy", "label", "label"}).Draw(t, "k"),
 			Typ: rapid.SampledFrom([]int{0, 0, 0, 1}).Draw(t, "typ"),
 			ID:  rapid.IntRange(0, 2).Draw(t, "id"),
 		}
@@ -163,6 +163,24 @@ func (w *world) write(ops []WOp) {
 				w.log[typ] = append(w.log[typ], model.Commit{Kind: model.Updated, New: m.Clone(), Old: w.cur[k].Clone()})
 				w.cur[k] = m
 			}
+		case "label":
+			// flip the label the filtered watches select on
+			r, err := w.st.Get(w.ctx, ptr)
+			if err != nil {
+				continue
+			}
+
+			if _, ok := r.Metadata().Labels().Get(selLabel); ok {
+				r.Metadata().Labels().Delete(selLabel)
+			} else {
+				r.Metadata().Labels().Set(selLabel, "x")
+			}
+
+			if w.st.Update(w.ctx, r) == nil {
+				m := model.FromResource(r)
+				w.log[typ] = append(w.log[typ], model.Commit{Kind: model.Updated, New: m.Clone(), Old: w.cur[k].Clone()})
+				w.cur[k] = m
+			}
 		case "destroy":
 			if w.st.Destroy(w.ctx, ptr) == nil {
 				w.log[typ] = append(w.log[typ], model.Commit{Kind: model.Destroyed, New: w.cur[k].Clone()})
@@ -171,6 +189,46 @@ func (w *world) write(ops []WOp) {
 		}
 	}
 }
+
+// selLabel is the label the filtered watch modes ("kind-label", "agg-label") select on.
+const selLabel = "sel"
+
+func selected(r *model.Res) bool {
+	if r == nil {
+		return false
+	}
+
+	_, ok := r.Labels[selLabel]
+
+	return ok
+}
+
+// filteredKind tells what a watch filtered on selLabel delivers for a commit: "" (nothing), or the event type name.
+func filteredKind(c model.Commit) string {
+	switch c.Kind {
+	case model.Created:
+		if selected(c.New) {
+			return "Created"
+		}
+	case model.Destroyed:
+		if selected(c.New) {
+			return "Destroyed"
+		}
+	case model.Updated:
+		switch was, is := selected(c.Old), selected(c.New); {
+		case was && is:
+			return "Updated"
+		case was:
+			return "Destroyed" // left the selection
+		case is:
+			return "Created" // entered the selection
+		}
+	}
+
+	return ""
+}
+
+func (ws watchSpec) filtered() bool { return strings.HasSuffix(ws.mode, "-label") }
 
 // watchSpec: kind of watch.
 type watchSpec struct {
@@ -235,7 +293,11 @@ func (w *world) open(ws watchSpec, bookmark state.Bookmark, tail int, bootstrap 
 			opts = append(opts, state.WithBootstrapContents(true))
 		}
 
-		if ws.mode == "kind" {
+		if ws.filtered() {
+			opts = append(opts, state.WatchWithLabelQuery(resource.LabelExists(selLabel)))
+		}
+
+		if ws.mode == "kind" || ws.mode == "kind-label" {
 			ch := make(chan state.Event)
 
 			err = w.st.WatchKind(ctx, kind, ch, opts...)
@@ -308,13 +370,40 @@ func restrict(ws watchSpec, log []model.Commit, from int) []int {
 			continue
 		}
 
+		if ws.filtered() && filteredKind(log[i]) == "" {
+			continue
+		}
+
 		out = append(out, i)
 	}
 
 	return out
 }
 
-func matchEvent(e state.Event, c model.Commit) string {
+func matchEvent(ws watchSpec, e state.Event, c model.Commit) string {
+	if ws.filtered() {
+		want := filteredKind(c)
+		if e.Type.String() != want {
+			return fmt.Sprintf("event type %s, want %s (filtered view of %s %s)", e.Type, want, c.Kind, c.New)
+		}
+
+		if d := model.Diff(e.Resource, c.New); d != "" {
+			return d
+		}
+
+		if want == "Updated" {
+			if e.Old == nil {
+				return "Updated without Old"
+			}
+
+			if d := model.Diff(e.Old, c.Old); d != "" {
+				return "old value: " + d
+			}
+		}
+
+		return ""
+	}
+
 	if e.Type.String() != c.Kind.String() {
 		return fmt.Sprintf("event type %s, want %s %s", e.Type, c.Kind, c.New)
 	}
@@ -346,7 +435,7 @@ func (w *world) checkSuffix(ws watchSpec, evs []state.Event, positions []int) st
 	}
 
 	for i, pos := range positions {
-		if d := matchEvent(evs[i], log[pos]); d != "" {
+		if d := matchEvent(ws, evs[i], log[pos]); d != "" {
 			return fmt.Sprintf("event %d (log position %d): %s", i, pos, d)
 		}
 
@@ -390,7 +479,10 @@ func runBubble(p Plan, foreign []state.Bookmark) (v hk.Verdict) {
 
 	fulls := map[string]full{}
 
-	for _, ws := range specs {
+	// filtered modes take part in (a) only: resume from every bookmark their own stream delivered
+	lspecs := []watchSpec{{"kind-label", "TA", ""}, {"agg-label", "TA", ""}}
+
+	for _, ws := range append(append([]watchSpec(nil), specs...), lspecs...) {
 		c, stop, err := w.open(ws, nil, 0, ws.mode != "single")
 		if err != nil {
 			v.Failf("cannot open full watch %s: %v", ws, err)
@@ -447,7 +539,7 @@ func runBubble(p Plan, foreign []state.Bookmark) (v hk.Verdict) {
 		}
 
 		// (a) resume from every delivered bookmark, every watch kind
-		for _, ws := range specs {
+		for _, ws := range append(append([]watchSpec(nil), specs...), lspecs...) {
 			// bookmarks delivered on this watch's own full stream
 			fe := fulls[ws.mode].collect()
 
@@ -457,6 +549,10 @@ func runBubble(p Plan, foreign []state.Bookmark) (v hk.Verdict) {
 				if e.Type == state.Created || e.Type == state.Updated || e.Type == state.Destroyed {
 					if len(e.Bookmark) > 0 { // the single watch's initial event has none
 						own = append(own, e)
+					} else if ws.mode != "single" {
+						v.Failf("%s: %s delivered %s of %s without a bookmark", phase, ws, e.Type, e.Resource.Metadata().ID())
+
+						return false
 					}
 				}
 			}
@@ -480,6 +576,10 @@ func runBubble(p Plan, foreign []state.Bookmark) (v hk.Verdict) {
 
 			if ws.mode != "single" {
 				cands = append(cands, cand{bootBM, -1})
+			}
+
+			if ws.filtered() && len(own) > 0 {
+				v.Label("filtered-watch-resumed")
 			}
 
 			for _, c := range cands {
